@@ -223,7 +223,7 @@ def c01d(ctx, tu):
             why = "a matcher operand must be asked matches(actual value)"
         else:
             s = str(rets[0]) if rets else ""
-            ok = len(rets) == 1 and ("'=='" in s)
+            ok = len(rets) == 1 and ("'=='" in s or "operator==" in s)
             why = "a plain value operand must be compared with == against the actual value"
         ctx.ob("C01.d", "trompeloeil::param_matches_impl", ok, pattern=fn.pat, unit=tu.name, inst=fn.q,
                detail="" if ok else why)
